@@ -5,7 +5,7 @@
       on every triangle.  Loading any valid triangulated OBJ (groups and usemtl statements in any arrangement) and
       saving it again loses or invents no face."
    Clause 1 = [obj_roundtrip] (line records) / [obj_roundtrip_bytes] (bytes); clause 2 = [obj_load_save_faces]
-   (line records) / [obj_load_save_bytes_partial] (bytes).  The text layer between bytes and line records is
+   (line records) / [obj_load_save_bytes] (bytes).  The text layer between bytes and line records is
    Formats/ObjText.v ([obj_text_*] theorems below); number text (strconv) is a parameter with stated hypotheses.
 
    C05 — OBJ write/read round trip and load/save.  Statements only; proofs live in Formats/ObjProofs.v.
@@ -212,18 +212,37 @@ Theorem obj_roundtrip_bytes : forall pf pi prf pri, number_text_ok pf pi prf pri
 Proof. intros pf pi prf pri [H1 H2]. exact (roundtrip_bytes pf pi prf pri H1 H2). Qed.
 Print Assumptions obj_roundtrip_bytes.
 
-(* Clause 2 over BYTES, PARTIAL.  Full statement: for every byte string whose statements all parse and form a valid
-   triangulated OBJ, read_bytes / write_bytes / read_bytes succeed and no face is lost or invented.  Proved with one
-   extra premise for the second half: the names the reader returned are printable ([mesh_clean gs1]); they are
-   fields of the input, so this holds for byte values < 256, but the invariant through the reader is not proved. *)
-Theorem obj_load_save_bytes_partial : forall pf pi prf pri, number_text_ok pf pi prf pri ->
-  forall text file, good_prefix (lines_of_bytes pf pi pri text) = (file, false) -> valid file = true ->
-  exists gs1, read_bytes pf pi pri text = Ok (gs1, lib_names file) /\ map obs gs1 = file_groups file /\
-    (Forall mesh_clean gs1 ->
-     exists text2 gs2, write_bytes prf pri None gs1 = Ok text2 /\
-       read_bytes pf pi pri text2 = Ok (gs2, []) /\ map obs gs2 = map gobs_written (file_groups file)).
-Proof. intros pf pi prf pri [H1 H2]. exact (load_save_bytes_partial pf pi prf pri H1 H2). Qed.
-Print Assumptions obj_load_save_bytes_partial.
+(* Clause 2 over BYTES (was obj_load_save_bytes_partial until round 4; the side premise "the names the reader returns
+   are printable" is now proved: they are fields of the input or the constant "Default", an invariant through the
+   reader state).  For every byte string (values < 256) whose statements all parse and form a valid triangulated OBJ:
+   read_bytes / write_bytes / read_bytes succeed and no face is lost or invented. *)
+Theorem obj_load_save_bytes : forall pf pi prf pri, number_text_ok pf pi prf pri ->
+  forall text file, bytes_ok text -> good_prefix (lines_of_bytes pf pi pri text) = (file, false) -> valid file = true ->
+  exists gs1 text2 gs2,
+    read_bytes pf pi pri text = Ok (gs1, lib_names file) /\ map obs gs1 = file_groups file /\
+    write_bytes prf pri None gs1 = Ok text2 /\
+    read_bytes pf pi pri text2 = Ok (gs2, []) /\ map obs gs2 = map gobs_written (file_groups file).
+Proof. intros pf pi prf pri [H1 H2]. exact (load_save_bytes pf pi prf pri H1 H2). Qed.
+Print Assumptions obj_load_save_bytes.
+
+(* the invariant behind it: whatever ReadMesh returns carries only names that were arguments of g / usemtl lines
+   (or "Default"), for every configuration of the reader *)
+Theorem obj_read_names_from_input : forall cfg ls gs libs, Forall line_clean ls -> read_gen cfg ls = Ok (gs, libs) ->
+  Forall mesh_src_clean gs.
+Proof. exact read_names_clean. Qed.
+Print Assumptions obj_read_names_from_input.
+
+(* non-vacuity of obj_load_save_bytes: a byte text (CRLF, comment, usemtl with a two-piece name, g, v//vn corners)
+   satisfies the three hypotheses *)
+Example obj_load_save_bytes_example :
+  let text := kw "v 0 0 0" ++ [13; 10] ++ kw "v 1 0 0" ++ [10] ++ kw "v 0 1 0" ++ [10] ++ kw "vn 0 0 1" ++ [10] ++
+              kw "# c" ++ [10] ++ kw "usemtl my mat" ++ [10] ++ kw "f 1//1 2//1 3//1" ++ [10] ++ kw "g b" ++ [10] ++ kw "f 3 2 1" in
+  bytes_okb text = true /\
+  match good_prefix (lines_of_bytes (fun _ => Some 7) atoi itoa text) with
+  | (file, false) => valid file = true /\ length (file_groups file) = 2%nat
+  | _ => False
+  end.
+Proof. vm_compute. repeat split; reflexivity. Qed.
 
 (* non-vacuity of the text layer: CRLF, tabs, a comment, a blank line, an unterminated last f line *)
 Example obj_text_example :
